@@ -577,6 +577,7 @@ package quickfix
 
 //@ func (state inSession) doTargetTooLow [C01,C06]
 //@   requires @sess sessfull(session)
+//@   requires @bound session.store.#T < MaxInt64
 //@   requires @msg msgok(msg)
 //@   ensures @next result != nil && stok(result)
 //@   ensures @sess sessfull(session) && session.State == old(session.State)
